@@ -119,8 +119,11 @@ func (h *bufHandler) handle(data []byte) (int, error) {
 	return pp, nil
 }
 
-func runBufStep(s bufStep, buf *rjson.Buffer) (res []int, log []int, panicked int) {
+func runBufStep(s bufStep, buf *rjson.Buffer, arena []byte) (res []int, log []int, panicked int) {
 	doc := make([]byte, len(s.data))
+	if arena != nil {
+		doc = arena[:len(s.data)] // the caller's read buffer, refilled for every call of the history
+	}
 	copy(doc, s.data)
 	var ok bool
 	var p int
@@ -184,14 +187,31 @@ func histDocs(c *genCtx) []bufStep {
 	return out
 }
 
-func execBufHist(steps []bufStep, j *jb) string {
+func execBufHist(steps []bufStep, j *jb) string { return execBufHistArena(steps, j, false) }
+
+// execBufHistArena: with sameArray, every step's document is copied into one and the same array before the call on
+// the shared Buffer (a caller that refills its read buffer): whatever a Buffer remembers about an earlier document
+// must not be keyed on where its bytes lived or how many there were.
+func execBufHistArena(steps []bufStep, j *jb, sameArray bool) string {
 	buf := &rjson.Buffer{}
+	var arena []byte
 	j.reset()
-	j.raw(`{"op":"bufhist","steps":[`)
+	if sameArray {
+		m := 0
+		for _, s := range steps {
+			if len(s.data) > m {
+				m = len(s.data)
+			}
+		}
+		arena = make([]byte, m+8)
+		j.raw(`{"op":"bufhist","arena":1,"steps":[`)
+	} else {
+		j.raw(`{"op":"bufhist","steps":[`)
+	}
 	key := ""
 	for si, s := range steps {
-		rs, ls, _ := runBufStep(s, buf)
-		rn, ln, _ := runBufStep(s, nil)
+		rs, ls, _ := runBufStep(s, buf, arena)
+		rn, ln, _ := runBufStep(s, nil, nil)
 		if si > 0 {
 			j.comma()
 		}
@@ -266,10 +286,52 @@ func deepPairs(c *genCtx, sw *shardWriter, j *jb) {
 	}
 }
 
+// sameArrayHists: the caller's read buffer refilled between calls on one Buffer.  For every document: the document,
+// then a same-length corruption of it (and the other way round, and the document twice), under every ordered pair of
+// functions; plus random histories in one array.
+func sameArrayHists(c *genCtx, sw *shardWriter, j *jb, docs []bufStep) {
+	type fm struct{ fn, mode int }
+	fms := []fm{{1, 0}, {2, 0}, {3, 0}, {4, hmZero}, {5, hmZero}, {4, hmSkipSame}, {5, hmFastSame}}
+	n := 0
+	for _, d := range docs {
+		if len(d.data) < 2 || len(d.data) > 400 {
+			continue
+		}
+		var vars [][]byte
+		for _, at := range []int{len(d.data) / 2, len(d.data) - 2, len(d.data) - 1, 0} {
+			for _, b := range []byte{',', 'x'} {
+				v := append([]byte{}, d.data...)
+				if v[at] == b {
+					continue
+				}
+				v[at] = b
+				vars = append(vars, v)
+			}
+		}
+		for _, f1 := range fms {
+			for _, f2 := range fms {
+				n++
+				if !c.thorough() && f1.fn >= 4 && f2.fn >= 4 && n%3 != 0 {
+					continue
+				}
+				v := vars[n%len(vars)]
+				for _, pair := range [][2][]byte{{d.data, v}, {v, d.data}, {d.data, d.data}} {
+					s1, s2 := bufStep{data: pair[0], fn: f1.fn, mode: f1.mode}, bufStep{data: pair[1], fn: f2.fn, mode: f2.mode}
+					key := execBufHistArena([]bufStep{s1, s2}, j, true)
+					sw.write(j.b)
+					c.st.noteKey("arena"+key+fmt.Sprint(n), true)
+				}
+			}
+		}
+	}
+}
+
 func genBufHist(c *genCtx, sw *shardWriter, j *jb) {
 	setCurrent("bufhist deep pairs")
 	deepPairs(c, sw, j)
 	docs := histDocs(c)
+	setCurrent("bufhist same array")
+	sameArrayHists(c, sw, j, docs)
 	nh := 1500
 	if c.thorough() {
 		nh = 150000
@@ -290,7 +352,7 @@ func genBufHist(c *genCtx, sw *shardWriter, j *jb) {
 			}
 			steps = append(steps, s)
 		}
-		key := execBufHist(steps, j)
+		key := execBufHistArena(steps, j, hI%3 == 2)
 		sw.write(j.b)
 		c.st.noteKey(key, true)
 	}
@@ -519,7 +581,8 @@ func init() {
 			steps = append(steps, bufStep{fn: int(m["fn"].(float64)), mode: int(m["mode"].(float64)), k: int(m["k"].(float64)), data: d, segs: segs})
 		}
 		var j jb
-		execBufHist(steps, &j)
+		ar, _ := ev["arena"].(float64)
+		execBufHistArena(steps, &j, ar == 1)
 		return append([]byte{}, j.b...), nil
 	}
 	replayers["rdrhist"] = func(ev map[string]interface{}) ([]byte, error) {
